@@ -60,6 +60,16 @@ CHECKS = {
         note="Trusted: z3; symx; origin-form model of urlsplit/urlparse (validated against urllib each run); decimal int(str) model; "
         "parse_qsl native on concrete input.",
         ref="§4 C16"),
+    "C03": dict(
+        text="Each structured setting is observed through BeaconConfig(block).settings / the convenience properties on a block built by "
+        "an independent encoder with symbolic arguments; the decoded value is proved equal to the encoded abstract value for every "
+        "argument value within the bounds: transform and recover programs (<=2/3 steps, all 15 opcodes, symbolic argument bytes and "
+        "32-bit lengths), execute lists (symbolic offsets and names), process-inject transforms, section tables, pivot frames, all 18 "
+        "NUL-terminated string settings, hex settings, public-key digest argument, DNS idle address, BOF allocator, BeaconGate groups "
+        "(set semantics, 7/9 symbolic flags at a time), kill date, scalars, domain/URI pairs.",
+        note="Trusted: z3; symx; cstruct generated readers interpreted; SHA-256 uninterpreted; decimal/hex rendering model; "
+        "ipaddress model. Legacy y/m/d kill date and empty DOMAINS are outside the claim (see DESIGN).",
+        ref="§4 C03"),
     "C15": dict(
         text="iter_find_needle: for every haystack (<=8/12 fully symbolic bytes), needle (1..3 / 1..4,7 symbolic bytes), read-buffer size "
         "1..5,8 / 1..9, start position and search limit, the reported offsets are proved to be exactly the true occurrences (ascending, "
